@@ -5,64 +5,7 @@
 -/
 import LccModel.Proto
 import LccModel.ProtoReport
-import LccModel.Model.Session
+import LccModel.ProtoSession
 open Lean LccModel LccModel.Proto LccModel.ProtoReport LccModel.Report LccModel.Session
 
-def decOp (j : Json) : Except String (Nat × Op) := do
-  let tid ← decNat (← field j "tid")
-  let k ← (← field j "op").getStr?
-  let path := fun (_ : Unit) => do decPath (← field j "path")
-  let md := fun (_ : Unit) => do decMeta (← field j "md")
-  let op ← match k with
-    | "startTestSession" => pure Op.startTestSession
-    | "endTestSession" => pure Op.endTestSession
-    | "startSessionSetup" => pure Op.startSessionSetup
-    | "endSessionSetup" => pure Op.endSessionSetup
-    | "startSessionTeardown" => pure Op.startSessionTeardown
-    | "endSessionTeardown" => pure Op.endSessionTeardown
-    | "startSuite" => pure (Op.startSuite (← path ()) (← md ()))
-    | "endSuite" => pure (Op.endSuite (← path ()))
-    | "startSuiteSetup" => pure (Op.startSuiteSetup (← path ()))
-    | "endSuiteSetup" => pure (Op.endSuiteSetup (← path ()))
-    | "startSuiteTeardown" => pure (Op.startSuiteTeardown (← path ()))
-    | "endSuiteTeardown" => pure (Op.endSuiteTeardown (← path ()))
-    | "startTest" => pure (Op.startTest (← path ()) (← md ()))
-    | "endTest" => pure (Op.endTest (← path ()))
-    | "skipTest" => pure (Op.skipTest (← path ()) (← md ()) (← decOpt decStr (fieldOpt j "reason")))
-    | "disableTest" => pure (Op.disableTest (← path ()) (← md ()) (← decOpt decStr (fieldOpt j "reason")))
-    | "setStep" => pure (Op.setStep (← decStr (← field j "desc")))
-    | "endStep" => pure Op.endStep
-    | "log" => pure (Op.log (← decLevel (← field j "level")) (← decStr (← field j "msg")))
-    | "check" => pure (Op.check (← decStr (← field j "desc")) (← decBool (← field j "ok")) (← decOpt decStr (fieldOpt j "details")))
-    | "url" => pure (Op.url (← decStr (← field j "url")) (← decStr (← field j "desc")))
-    | "attach" => pure (Op.attach (← decStr (← field j "file")) (← decStr (← field j "desc")) (← decBool (← field j "img")))
-    | "attachBegin" => pure (Op.attachBegin (← decStr (← field j "file")) (← decStr (← field j "desc")) (← decBool (← field j "img")))
-    | "attachEnd" => pure Op.attachEnd
-    | "attachAbort" => pure Op.attachAbort
-    | "threadCreate" => pure (Op.threadCreate (← decNat (← field j "new")))
-    | "threadRun" => pure Op.threadRun
-    | "threadEnd" => pure Op.threadEnd
-    | _ => throw s!"unknown op {k}"
-  pure (tid, op)
-
-def errStr : Err → String
-  | .noCursor => "noCursor" | .noStep => "noStep" | .noSavedThread => "noSavedThread" | .noAttach => "noAttach"
-
-def handle (j : Json) : Except String Json := do
-  let ops ← (← getArr j "ops").toList.mapM decOp
-  let rec go (s : St) (ops : List (Nat × Op)) (k : Nat) : St × Nat × Option String :=
-    match ops with
-    | [] => (s, k, none)
-    | (tid, op) :: rest =>
-      match step s tid op with
-      | .error e => (s, k, some (errStr e))
-      | .ok s' => go s' rest (k + 1)
-  let (s, k, e) := go St.init ops 0
-  pure (Json.mkObj [
-    ("accepted", Json.num k),
-    ("error", match e with | none => Json.null | some m => Json.str m),
-    ("fired", encList encEvent s.fired),
-    ("failures", encList encLoc s.failures),
-    ("pending", encList (fun (p : Nat × Cursor) => Json.arr #[Json.num p.1, encList encEvent p.2.pending]) s.cursors)])
-
-def main : IO Unit := loop (wrap handle)
+def main : IO Unit := loop (wrap LccModel.ProtoSession.handleCalls)
